@@ -3,6 +3,7 @@ import RsslVerif.Lemmas.FmtParseTables
 import RsslVerif.Lemmas.RoundtripThm
 import RsslVerif.Lemmas.RoundtripFull7
 import RsslVerif.Lemmas.StmtRT4
+import RsslVerif.Lemmas.DefRT2
 import RsslVerif.Lemmas.LiteralText
 /-!
 # C09 — printing a syntax tree and parsing it back are inverse (expression level)
@@ -267,6 +268,7 @@ theorem source_fingerprints : fingerprints = [
   ("formatter.rs::format_function_param", "06edafe0b54eae6f"),
   ("formatter.rs::format_struct", "874644b551ea4772"),
   ("formatter.rs::format_global_variable", "83c45667ed45906b"),
+  ("formatter.rs::format_location_annotations", "73455d720677dbab"),
   ("formatter.rs::format_location_annotation", "34c33f08d32d97b6"),
   ("formatter.rs::format_semantic_annotation", "0400732ec536c60f"),
   ("errors.rs::get_most_relevant_result", "2505c52c638c5746"),
@@ -549,6 +551,103 @@ example : ∃ fuel, parseStmt ["int", "vector", "S"] fuel (toks (fmtStmt sampleS
     .ok sampleStmt [.p .RightBrace] :=
   roundtrip_stmt_partial _ sampleStmt sampleStmt_wf _ (by simp) (fun _ r h => by cases h) (fun _ => by decide +kernel)
 end Statements
+
+/-! # Function and struct definitions (`Model/FormatDef`, `Model/ParseDef`) -/
+section Definitions
+open RsslVerif.Gen.SyntaxTables RsslVerif.Model.FormatFull RsslVerif.Model.ParseFull RsslVerif.Model.FormatStmt
+open RsslVerif.Model.ParseStmt RsslVerif.Model.FormatDef RsslVerif.Model.ParseDef
+open RsslVerif.Lemmas.RoundtripFull RsslVerif.Lemmas.StmtRT RsslVerif.Lemmas.DefRT
+
+/-- **roundtrip_param_partial.** A function parameter — type with modifiers (`in` / `out` / `inout`, `const`, …) and
+template arguments, named declarator (pointer, reference, array dimensions), optional semantic, optional default value —
+printed by `format_function_param` in front of `,` or `)` is read back by the model of `parse_function_param` as the same
+parameter.  Partial — `WFParam`: the declarator is named and one the parser has productions for, the default value has
+no top-level comma operator (`default_arg_comma_rejected`: the formatter prints it bare and the text is rejected; known
+finding), expressions are `WF`. -/
+theorem roundtrip_param_partial (W : List String) (p : Param) (hwf : WFParam W p) (c : Tok)
+    (hc : c = .p .Comma ∨ c = .p .RightParen) (rest : List Tok)
+    (hsafe : hasLtParam p = true → TmplFree (toks (fmtParam p) ++ c :: rest) = true) :
+    ∃ fuel, parseParam W fuel (toks (fmtParam p) ++ c :: rest) = some (p, c :: rest) := by
+  rw [toks_fmtParam] at hsafe ⊢
+  obtain ⟨N, h⟩ := param_reads W p hwf c hc rest hsafe
+  exact ⟨N, h N (Nat.le_refl _)⟩
+
+/-- **roundtrip_function_partial.** For every function definition tree — attributes, return type (modifiers, name,
+template arguments), name, any number of parameters (`roundtrip_param_partial`), optional semantic on the return value,
+and either no body (`;`) or a body of any statements (`roundtrip_block_partial`) — and every `rest`: the printed tokens
+followed by `rest` are read back by the model of `parse_function_definition` as the same tree (`ok`, never `panic`).
+Partial — `WFFn`: `WFAttrs`, `WFParam` of every parameter, `WFSs` of the body; not in the tree type: template parameter
+lists, `const` / `volatile` methods, register / packoffset annotations, more than one annotation per position (driver:
+`unsupported`).  `hsafe` is the `<` condition of `roundtrip_xexpr_partial` for the whole remaining stream. -/
+theorem roundtrip_function_partial (W : List String) (fn : FnDef) (hwf : WFFn W fn) (rest : List Tok)
+    (hsafe : hasLtFn fn = true → TmplFree (toks (fmtFn fn) ++ rest) = true) :
+    ∃ fuel, parseFn W fuel (toks (fmtFn fn) ++ rest) = .ok fn rest := by
+  rw [toks_fmtFn] at hsafe ⊢
+  obtain ⟨N, h⟩ := fn_reads W fn hwf rest hsafe
+  exact ⟨N, h N (Nat.le_refl _)⟩
+
+/-- **roundtrip_struct_partial.** For every struct definition tree — name and any number of entries, each a member
+variable definition with attributes (`roundtrip_decl_partial`) or a method (`roundtrip_function_partial`; the model of
+`parse_struct_entry` tries the member reading first, which is shown to fail on a method: after the name comes `(`) — the
+printed tokens followed by `rest` are read back by the model of `parse_struct_definition` as the same tree.
+Partial — `WFStruct`: `WFVarDef` / `WFFn` of the entries; not in the tree type: template parameters, base types (which the
+formatter does not print: known finding), member semantics / packoffsets. -/
+theorem roundtrip_struct_partial (W : List String) (s : StructDef) (hwf : WFStruct W s) (rest : List Tok)
+    (hsafe : hasLtMembers s.members = true → TmplFree (toks (fmtStruct s) ++ rest) = true) :
+    ∃ fuel, parseStruct W fuel (toks (fmtStruct s) ++ rest) = .ok s rest := by
+  rw [toks_fmtStruct] at hsafe ⊢
+  obtain ⟨N, h⟩ := struct_reads W s hwf rest hsafe
+  exact ⟨N, h N (Nat.le_refl _)⟩
+
+/-- `void f(int a = (x, y));` prints `void f(int a = x, y);`: the default value is printed with `format_expression` and
+read with `parse_expression_no_seq`; `y` is then read as the type of a second parameter without name: rejected (real
+code: known finding) -/
+theorem default_arg_comma_rejected :
+    parseFn [] 40 (toks (fmtFn ⟨[], [], "void", .nil, "f",
+      [⟨[], "int", .nil, .name "a", none, some (.bin .Sequence (.id "x") (.id "y"))⟩], none, none⟩) ++ [.p .Eof]) = .fail := by rfl
+
+/-- non-vacuity: attribute, template return type, `in`/`out`/`inout` parameters with array declarator, semantics and a
+default value, a body with a definition and a `return` -/
+def sampleFn : FnDef :=
+  ⟨[⟨"numthreads", .cons (.lit ⟨.IntUntyped, false, 8⟩) (.cons (.lit ⟨.IntUntyped, false, 8⟩) (.cons (.lit ⟨.IntUntyped, false, 1⟩) .nil)), false⟩],
+   [.Static], "vector", .cons (.both (.id "float") (.mk [] "float" .nil .empty)) (.cons (.e (.lit ⟨.IntUntyped, false, 4⟩)) .nil), "f",
+   [⟨[.In], "float4", .nil, .name "a", some "COLOR", none⟩,
+    ⟨[.Out], "S", .nil, .arr (.name "b") (.lit ⟨.IntUntyped, false, 3⟩), none, none⟩,
+    ⟨[.InOut, .Const], "uint", .nil, .name "c", some "SV_VertexID", some (.bin .Add (.id "n") (.lit ⟨.IntUntyped, false, 1⟩))⟩],
+   some "SV_Target",
+   some (.cons (.mk [] (.var ⟨[], "float", .nil, [⟨.name "t", some (.expr (.id "a"))⟩]⟩))
+     (.cons (.mk [] (.ret (some (.id "t")))) .nil))⟩
+
+theorem sampleFn_wf : WFFn ["vector", "float4", "S", "uint", "float", "float4x4"] sampleFn := by
+  simp [sampleFn, WFFn, WFParam, WFBody, WFS, WFK, WFSs, WFAttrs, WFAttr, WFVarDef, WFInitDecl, WFInit, WFOpt, WFDecl, argsLvl,
+    RsslVerif.Lemmas.RoundtripFull.WF, RsslVerif.Lemmas.RoundtripFull.WFA, WFArg, WFTArgs, WFTy, tyName,
+    gtFree, hasLt, XExpr.lvl, Decl.abstr, Decl.needsScope, Decl.startsBracket, openIf, openIfK]
+  decide +kernel
+
+example : ∃ fuel, parseFn ["vector", "float4", "S", "uint", "float", "float4x4"] fuel (toks (fmtFn sampleFn) ++ [.p .Eof]) = .ok sampleFn [.p .Eof] :=
+  roundtrip_function_partial _ sampleFn sampleFn_wf _ (fun _ => by decide +kernel)
+
+/-- non-vacuity: a struct with two member definitions (one with attribute and two declarators) and a method -/
+def sampleStruct : StructDef :=
+  ⟨"P", [.var [] ⟨[], "float4", .nil, [⟨.name "pos", none⟩]⟩,
+         .var [⟨"a", .nil, true⟩] ⟨[.RowMajor], "float4x4", .nil, [⟨.name "m", none⟩, ⟨.arr (.name "k") (.lit ⟨.IntUntyped, false, 2⟩), none⟩]⟩,
+         .method sampleFn]⟩
+
+theorem sampleStruct_wf : WFStruct ["vector", "float4", "S", "uint", "float", "float4x4"] sampleStruct := by
+  intro m hm
+  simp only [sampleStruct, List.mem_cons, List.not_mem_nil, or_false] at hm
+  rcases hm with rfl | rfl | rfl
+  · simp [WFMember, WFAttrs, WFVarDef, WFInitDecl, WFDecl, WFTArgs, Decl.abstr]; decide +kernel
+  · simp [WFMember, WFAttrs, WFAttr, argsLvl, RsslVerif.Lemmas.RoundtripFull.WFA, WFVarDef, WFInitDecl, WFDecl, WFTArgs,
+      Decl.abstr, Decl.needsScope, RsslVerif.Lemmas.RoundtripFull.WF]
+    decide +kernel
+  · exact sampleFn_wf
+
+example : ∃ fuel, parseStruct ["vector", "float4", "S", "uint", "float", "float4x4"] fuel (toks (fmtStruct sampleStruct) ++ [.p .Eof]) =
+    .ok sampleStruct [.p .Eof] :=
+  roundtrip_struct_partial _ sampleStruct sampleStruct_wf _ (fun _ => by decide +kernel)
+
+end Definitions
 
 /-! # The text of integer literals -/
 section LiteralText
